@@ -6,6 +6,6 @@ open IrVerif.Device
 #print axioms C19_checker_only_names
 #print axioms C19_drop
 #print axioms C19_reject_atomic
-#print axioms C19_names_current
+#print axioms C19_checks_precede_writes
 #print axioms C19_serializable
 #print axioms C19_roundtrip_faithful
